@@ -70,6 +70,15 @@ pub fn hex(b: &[u8]) -> String {
 
 pub fn mk_config(bits: u32) -> ParserConfig {
     let mut c = ParserConfig::default();
+    // every setter is first called with the opposite value and then with the wanted one, so that a
+    // setter that only ever turns an option on (or touches a neighbouring field) is exercised
+    c.allow_spaces_after_header_name_in_responses(bits & 1 == 0);
+    c.allow_obsolete_multiline_headers_in_responses(bits & 2 == 0);
+    c.allow_multiple_spaces_in_request_line_delimiters(bits & 4 == 0);
+    c.allow_multiple_spaces_in_response_status_delimiters(bits & 8 == 0);
+    c.allow_space_before_first_header_name(bits & 16 == 0);
+    c.ignore_invalid_headers_in_responses(bits & 32 == 0);
+    c.ignore_invalid_headers_in_requests(bits & 64 == 0);
     c.allow_spaces_after_header_name_in_responses(bits & 1 != 0);
     c.allow_obsolete_multiline_headers_in_responses(bits & 2 != 0);
     c.allow_multiple_spaces_in_request_line_delimiters(bits & 4 != 0);
@@ -365,8 +374,9 @@ fn run_hist(args: &[&str]) -> Option<String> {
     // all buffers must outlive the value: place each at a guard page
     let bufs: Vec<mem::ByteArena> = calls.iter().map(|(_, _, b)| mem::ByteArena::new(b, mem::Place::EndGuard, 0)).collect();
     // one separate array per call for the uninit entry point (entry code 3); they outlive the value
-    let uarenas: Vec<mem::HeaderArena> = (0..=n).map(|_| mem::HeaderArena::new(cap, mem::Place::EndGuard)).collect();
-    let uptrs: Vec<*mut u8> = uarenas.iter().map(|u| u.base() as *mut u8).collect();
+    let mut uarenas: Vec<mem::HeaderArena> = (0..=n).map(|_| mem::HeaderArena::new(cap, mem::Place::EndGuard)).collect();
+    // (pointers with write provenance: derived from `&mut`, not from `base(&self)`)
+    let uptrs: Vec<*mut u8> = uarenas.iter_mut().map(|u| u.slots_mut().as_mut_ptr() as *mut u8).collect();
     /// SAFETY: `p` is the base of a live arena of `cap` slots that is used by one call only
     unsafe fn uslice<'a, 'b>(p: *mut u8, cap: usize) -> &'a mut [MaybeUninit<Header<'b>>] {
         std::slice::from_raw_parts_mut(p as *mut MaybeUninit<Header<'b>>, cap)
@@ -513,6 +523,24 @@ fn run_case(line: &str) -> Option<String> {
     let kind = *t.get(0)?;
     match kind {
         "req" | "resp" | "hdrs" | "chunk" => run_basic(kind, &t[1..], mem::Place::EndGuard, 0),
+        "mu" => {
+            let k = *t.get(1)?;
+            let cfg = mk_config(t.get(2)?.parse().ok()?);
+            let cap: usize = t.get(3)?.parse().ok()?;
+            let b = unhex(t.get(4)?)?;
+            let arena = mem::ByteArena::new(&b, mem::Place::EndGuard, 0);
+            let buf = arena.bytes();
+            let mut u: Vec<MaybeUninit<Header<'_>>> = (0..cap).map(|_| MaybeUninit::uninit()).collect();
+            Some(if k == "req" {
+                let mut r = Request::new(&mut []);
+                let st = cfg.parse_request_with_uninit_headers(&mut r, buf, &mut u);
+                format!("{} m={} p={} v={} h={}", status_str(&st), osl(r.method, buf), osl(r.path, buf), onum(r.version), hdrs_str(r.headers, buf))
+            } else {
+                let mut r = Response::new(&mut []);
+                let st = cfg.parse_response_with_uninit_headers(&mut r, buf, &mut u);
+                format!("{} v={} c={} r={} h={}", status_str(&st), onum(r.version), onum(r.code), osl(r.reason, buf), hdrs_str(r.headers, buf))
+            })
+        }
         "wit" => run_basic(t.get(2)?, &t[3..], mem::Place::EndGuard, 0),
         "nowit" => Some(t[1..].join(" ")),
         "place" => {
@@ -628,9 +656,12 @@ fn run_case(line: &str) -> Option<String> {
     }
 }
 
+#[cfg(not(miri))]
 extern "C" {
     fn alarm(seconds: u32) -> u32;
 }
+#[cfg(miri)]
+unsafe fn alarm(_seconds: u32) -> u32 { 0 }
 
 fn cmd_run() -> io::Result<()> {
     panic::set_hook(Box::new(|_| {}));
